@@ -16,9 +16,9 @@ import time
 import traceback
 
 VERIF = os.path.dirname(os.path.dirname(os.path.abspath(__file__)))
-COQ = os.path.join(VERIF, 'coq')
+COQ = os.environ.get('VERIF_COQ') or os.path.join(VERIF, 'coq')
 REPO = os.environ.get('VERIF_REPO', '/repo')
-LOCK = os.path.join(VERIF, '.build.lock')
+LOCK = os.path.join(VERIF, '.build.lock') if not os.environ.get('VERIF_COQ') else os.path.join(COQ, '.build.lock')
 
 FORBIDDEN = re.compile(
     r'\b(Admitted|admit|Axiom|Axioms|Parameter|Parameters|Conjecture|Conjectures|'
